@@ -549,6 +549,13 @@ def execute(sc):
     return res
 
 
+def confirm(case, result):
+    """A violation that involves the Node driver must survive a fresh Node process (see c20.confirm)."""
+    jsbridge.stop()
+    again = execute(case)
+    return again['verdict'] == 'violation' and again['oracle'] == result['oracle']
+
+
 def signature(sc, result):
     d = result.get('detail') or {}
     kind = None
